@@ -730,7 +730,16 @@ pub fn mutate(doc: &Doc, m: Mutation, rng: &mut Rng) -> Option<(String, bool)> {
             let (i, k) = *instantiations.get(rng.usize_below(instantiations.len().max(1)))?;
             let g = d.modules.iter().find(|x| x.name == d.modules[i].subs[k].typ)?;
             let bound = d.modules.iter().find(|x| x.name == g.generics[0].1)?;
-            if bound.gates.is_empty() && bound.subs.is_empty() && bound.inherit.is_none() {
+            // conformance is structural: the bound must have something (own or inherited) that "Hollow" lacks
+            let mut has_content = false;
+            let mut cur = Some(bound);
+            let mut hops = 0;
+            while let Some(b) = cur {
+                has_content |= !b.gates.is_empty() || !b.subs.is_empty();
+                hops += 1;
+                cur = if hops < 32 { b.inherit.as_ref().and_then(|i| d.modules.iter().find(|x| x.name == *i)) } else { None };
+            }
+            if !has_content {
                 return None;
             }
             d.modules.push(ModDecl { name: "Hollow".into(), generics: vec![], inherit: None, gates: vec![], subs: vec![], conns: vec![] });
